@@ -49,6 +49,12 @@ CHECKS = {
  'C09': dict(cat='exploration', tech='bounded-exhaustive declaration histories: the symbol table read from the emitted IL (definitions, export/thread keywords, referenced-but-undefined names, initial bytes) compared with the ELF symbol tables of gcc and clang for the same history',
              text='All histories of up to 3 (thorough: 4) declarations of one identifier over {none, static, extern, _Thread_local combinations} x {file, block scope} x {with/without initialiser} for objects, the same with inline / extern inline / static inline / _Noreturn and bodies for functions, and arrays of known/unknown size (tentative completion, composite type), each followed by a use, plus random longer histories with assembler labels; a history both gcc and clang accept under -std=c11 -pedantic-errors must be accepted, and per identifier: defined or not, exported or local, thread-local or not, size and bytes of the surviving definition, undefined references, number/locality/initial values of block-scope statics and the thread marking of every reference must match the reference object.',
              note='exhaustive=true refers to the history enumeration up to the stated length. Histories gcc rejects are skipped (C10 judges rejections); histories whose behaviour is undefined (block-scope extern array size never repeated at file scope) are not generated. K18 (thread-local tentative then initialised) is recorded.', ref='4/C09'),
+ 'C17': dict(cat='exploration', tech='differential trace checking: argv, stdin/stdout identity, inherited descriptors and data flow recorded by stub tools vs an executable model of cproc(1); driver built with the tree\'s own configure for three targets',
+             text='Random command lines from the option grammar (inputs of all seven types incl. one-character and multi-dot names, - with -x, libraries, every mode flag, every forwarding option attached and detached, -Wp/-Wa/-Wl lists, ignored options, -M family, invalid combinations and missing arguments) are run by the driver configured with stub tools; each stub logs its argv and what its descriptors are connected to and wraps its input as role[...]; the monitor compares the invocations, pipe topology, outputs (names and nested contents), standard output, leftover temporaries, removed or overwritten inputs and usage errors (status 2, nothing run) with the model.',
+             note='The model follows cproc(1); where the manual is silent (-S, -emit-qbe output names, inputs that do not reach the last stage are ignored) it follows the usage synopsis and gcc convention as implemented.', ref='4/C17'),
+ 'C18': dict(cat='exploration', tech='fault injection at every stage of every pipeline through stub tools (7 failure modes incl. spawn failure and signals) with injected start/exit delays and pipe-overflowing output; LD_PRELOAD shim records mkstemp/unlink; pid liveness monitor; watchdog',
+             text='For each pipeline shape (1..3 inputs x input types x last stage E/emit-qbe/S/c/link) every tool invocation in turn is made to fail in every mode while random delays and output padding force different termination orders; after the driver returns the monitor checks: non-zero status, no link step, the failing pipeline\'s output removed, every temporary object removed, no stub process left, return within the watchdog (a firing is re-run once before it counts as a hang); fault-free scenarios must exit 0 with outputs in place.',
+             note='Orderings are sampled by delays, not enumerated; stubs die on SIGTERM like real tools.', ref='4/C18'),
  'C03': dict(cat='exploration', tech='online validator (re-implemented QBE parse/typecheck/SSA rules) over every accepted output; strace write-fault injection',
              text='Every module printed with exit status 0 (suite, corpus, generated, odd-shaped and mutated inputs, cproc\'s own sources; three targets) is parsed and checked by an independent IL validator; output faults are injected at the k-th write.',
              note='Trusted: vf.ilcheck (silent on the 159 stored .qbe files and the self-compiled IL); data sizes vs C objects are judged by C06/C07.', ref='4/C03'),
